@@ -500,7 +500,8 @@ func (c *Core) registrationRequest(ranID int64, plain []byte) {
 	rnd := mustHex(ue.P.RAND, 16, "rand")
 	sqn := mustHex(ue.P.SQN, 6, "sqn")
 	amf := mustHex(ue.P.AMFField, 2, "amf")
-	ue.AKA = crypto.Derive5GAKA(c.k, c.opc, rnd, sqn, amf, crypto.SNName(cfg.MCC, cfg.MNC), ue.SUPI, []byte{0, 0})
+	k, opc := c.credsOf(ord)
+	ue.AKA = crypto.Derive5GAKA(k, opc, rnd, sqn, amf, crypto.SNName(cfg.MCC, cfg.MNC), ue.SUPI, []byte{0, 0})
 	msg := nas.AuthenticationRequest(byte(ue.P.NgKSI), []byte{0, 0}, rnd, ue.AKA.AUTN)
 	ies := []ngap.IE{
 		{ngap.IDAMFUENGAPID, ngap.Reject, ngap.EncAMFUENGAPID(ue.AmfID)},
@@ -546,6 +547,31 @@ func selectAlg(bits byte) byte {
 		}
 	}
 	return 0
+}
+
+// credsOf returns K and OPc of the ord-th subscriber: its own when the scenario lists credentials
+// per subscriber, else the configured ones.
+func (c *Core) credsOf(ord int) ([]byte, []byte) {
+	if ord < len(c.S.SubCreds) && c.S.SubCreds[ord].K != "" {
+		cr := c.S.SubCreds[ord]
+		k, e1 := hex.DecodeString(cr.K)
+		var opc []byte
+		var e2 error
+		if cr.OPC != "" {
+			opc, e2 = hex.DecodeString(cr.OPC)
+		} else {
+			var op []byte
+			op, e2 = hex.DecodeString(cr.OP)
+			if e2 == nil && len(op) == 16 && len(k) == 16 {
+				opc = crypto.OPc(k, op)
+			}
+		}
+		if e1 != nil || e2 != nil || len(k) != 16 || len(opc) != 16 {
+			panic("scenario subscriber credentials are not 16 octets of hex")
+		}
+		return k, opc
+	}
+	return c.k, c.opc
 }
 
 // subscriber returns the SUPI digits the ord-th registering UE is provisioned with: initial IMSI +
